@@ -151,6 +151,14 @@ func Thorough() bool { return tier == "thorough" }
 // Shard returns the shard index of this process.
 func Shard() int { return shard }
 
+// NShards returns the number of shard processes of this run (1 when run outside the driver).
+func NShards() int {
+	if n := envInt("VERIF_NSHARDS", 1); n > 0 {
+		return n
+	}
+	return 1
+}
+
 // Register makes a check known to the framework (needed for witnesses and replays).
 func Register[C any](p *Prop[C]) *Prop[C] {
 	if p.Weight == 0 {
